@@ -119,7 +119,9 @@ def stepD (st : DState) (op : String) (args : List String) : Except String (DSta
       match Codec.parse raw with
       | some s => .ok (st, s!"s:{Codec.render s}", "-", true)
       | none => .ok (st, "e:invalid", "-", true)
-    | "roundtrip", _ => .ok (st, "b:true", "-", false)   -- encoding/json fidelity: a test of the assumed law, not a model run
+    | "roundtrip", _ => .ok (st, "b:true", "-", false)
+    -- rejected, adapter not called, nothing stored, not counted, nothing pending
+    | "unencodable", _ => .ok (st, "r:false,0,0,0,0", "-", true)   -- encoding/json fidelity: a test of the assumed law, not a model run
     | _, _ => .error s!"unknown codec op {op}"
   | .jobcfg =>
     -- JSON string literals / arrays of the harness: strip quotes, split on `","`
@@ -208,6 +210,8 @@ partial def diffLoop (h : IO.FS.Stream) (a : DAcc) : IO DAcc := do
           match managerSpecViol strategy lens rr out with
           | some m => IO.println s!"DIFFVIOL {c} {m}"
           | none => pure ()
+        | .codec, "unencodable" =>
+          IO.println s!"DIFFVIOL {c} a payload that cannot be encoded (kind {" ".intercalate args}) was not rejected without effect: accepted, Enqueue calls, stored entries, Submitted, NumPending = {(out.drop 2).toString}"
         | .codec, "roundtrip" =>
           -- an id / payload that does not come back from Json() → parseToJob as a JSON round trip of it: a failing input
           IO.println s!"DIFFVIOL {c} id/payload {(" ".intercalate (args.drop 1)).replace "%20" " "} is not what the worker receives after Json() and parseToJob"
